@@ -329,7 +329,7 @@ class PostgresConnection(DBAPI):
     def _queryAddLimitOffset(cls, query, start, end):
         if not start:
             return "%s LIMIT %i" % (query, end)
-        if not end:
+        if end is None:
             return "%s OFFSET %i" % (query, start)
         return "%s LIMIT %i OFFSET %i" % (query, end - start, start)
 
